@@ -220,3 +220,14 @@ def replay(ctx, payload):
     print("zone=%s t=%s impl=%s data=%s" % (c["zone"], c["t"], got, want))
     p = got.split(",")
     return len(p) == 5 and int(p[2]) == want[0] and p[4] == Z.hexs(want[2]) and (want[1] != 0 or p[3] == "0")
+
+
+# --- appended by the translator tie (wt-iso): the tz lookup functions re-translated from tz/tz.py and tz/_common.py
+# (Generated/TzKernels.lean, ops tzgen.*) are compared with the implementation's methods on every run
+_correspondence_without_tzgen = correspondence
+
+
+def correspondence(ctx):
+    _correspondence_without_tzgen(ctx)
+    import tzgenlib
+    tzgenlib.validate(ctx, quick_zones=8, quick_syn=8)
